@@ -93,7 +93,7 @@ func c19Behaviour(bi int, b *Behaviour, m *Map, hv *keyHarvester, rng *rand.Rand
 		}
 		switch st.A {
 		case "Dump":
-			if _, err := w.doDump(st.I, true); err != nil {
+			if _, err := w.doDump(st.I, true, true); err != nil {
 				return TraceRec{}, err
 			}
 		case "Load":
@@ -166,7 +166,7 @@ func c19Big(j *C19Job, hv *keyHarvester, rng *rand.Rand) error {
 				return err
 			}
 		}
-		body, err := w.doDump(1, true)
+		body, err := w.doDump(1, true, true)
 		if err != nil {
 			return err
 		}
@@ -189,10 +189,10 @@ func c19Big(j *C19Job, hv *keyHarvester, rng *rand.Rand) error {
 				}
 			}
 		}
-		if _, err := w.doDump(2, true); err != nil {
+		if _, err := w.doDump(2, true, false); err != nil {
 			return err
 		}
-		if _, err := w.doDump(1, true); err != nil {
+		if _, err := w.doDump(1, true, false); err != nil {
 			return err
 		}
 		w.close()
@@ -214,7 +214,7 @@ func c19Big(j *C19Job, hv *keyHarvester, rng *rand.Rand) error {
 		if err := w.inject(1, ents); err != nil {
 			return err
 		}
-		body, err := w.doDump(1, true)
+		body, err := w.doDump(1, true, true)
 		if err != nil {
 			return err
 		}
@@ -252,7 +252,7 @@ func c19Big(j *C19Job, hv *keyHarvester, rng *rand.Rand) error {
 			}
 			w.doFlush(2, true)
 			statuses = append(statuses, w.doLoad(2, body[:c], true))
-			if _, err := w.doDump(2, true); err != nil {
+			if _, err := w.doDump(2, true, false); err != nil {
 				return err
 			}
 		}
@@ -301,7 +301,7 @@ func c19Garbage(j *C19Job, hv *keyHarvester, rng *rand.Rand) error {
 	if err := w.inject(1, ents); err != nil {
 		return err
 	}
-	good, err := w.doDump(1, true)
+	good, err := w.doDump(1, true, true)
 	w.close()
 	if err != nil {
 		return err
